@@ -420,7 +420,7 @@ def expand_macro_call(rel, name, nth, within=None, arg0=None):
         while pk < pc:
             if texts[pk] == "$" and texts[pk + 1] == "(":
                 # $($v:tt)* : the rest of the invocation
-                binds[("rest", texts[pk + 3])] = re.sub(r"\s+", "", src[toks[it].start:toks[ac - 1].end]) if it < ac else ""
+                binds[("rest", texts[pk + 3])] = re.sub(r"\s+", " ", src[toks[it].start:toks[ac - 1].end]) if it < ac else ""
                 it = ac
                 pk = match_close(toks, pk + 1) + 2
             elif texts[pk] == "$":
@@ -490,6 +490,16 @@ def weave_item(hdr, subs, stats):
     log = []
     if kind == "macrocall":
         text, line = expand_macro_call(rel, name, hdr.get("nth", 1), hdr.get("in"), hdr.get("arg0"))
+        if hdr.get("pick"):
+            # the expansion is an `impl` block: one of its functions is taken (`pick fn <name>`)
+            tk_ = tokenize(text)
+            fi_ = next((i for i, t in enumerate(tk_) if t.kind == "id" and t.text == "fn" and tk_[i + 1].text == hdr["pick"]), None)
+            if fi_ is None:
+                raise WeaveError(f"{what}: the expansion has no fn {hdr['pick']}")
+            j_ = fi_
+            while tk_[j_].text != "{":
+                j_ += 1
+            text = text[tk_[fi_].start:tk_[match_close(tk_, j_)].end] + "\n"
         ot = OText(text, [line] * len(text))
         orig_text = ot.s
         first_line = last_line = line
@@ -999,7 +1009,7 @@ def _count_clauses(txt):
 # template parsing
 # --------------------------------------------------------------------------
 _ITEM_RE = re.compile(
-    r"^//@@\s*item\s+(\w+)\s+(`[^`]+`|\S+)\s+from\s+(\S+)(?:\s+in\s+`([^`]+)`)?(?:\s+nth\s+(\d+))?(?:\s+arg0\s+(\S+))?\s*$")
+    r"^//@@\s*item\s+(\w+)\s+(`[^`]+`|\S+)\s+from\s+(\S+)(?:\s+in\s+`([^`]+)`)?(?:\s+nth\s+(\d+))?(?:\s+arg0\s+(\S+))?(?:\s+pick\s+fn\s+(\w+))?\s*$")
 
 
 def parse_template(path, seen=None):
@@ -1041,6 +1051,8 @@ def parse_template(path, seen=None):
                 hdr["nth"] = int(m.group(5))
             if m.group(6):
                 hdr["arg0"] = m.group(6)
+            if m.group(7):
+                hdr["pick"] = m.group(7)
             subs = []
             i += 1
             cur = None
@@ -1153,7 +1165,7 @@ def parse_template(path, seen=None):
     return out
 
 
-def build_unit(template, canaries=False):
+def build_unit(template, canaries=False, demote=()):
     """returns (text, line_map, items_meta, stats)
 
     line_map[k] (k = 0-based output line) = None | dict(file, line, item, canary)
@@ -1185,6 +1197,12 @@ def build_unit(template, canaries=False):
         else:
             _, hdr, subs, path = p
             ot, meta = weave_item(hdr, subs, stats)
+            if demote and meta["name"] in demote and meta["kind"] in ("fn", "macrocall") and not meta["assumed_stub"]:
+                # fallback of vc/run.py: a function whose changed text left the verifiable subset is kept as an
+                # assumed contract (body dropped) so that the rest of the unit is still decided
+                subs = subs + [{"op": "sigonly"}]
+                ot, meta = weave_item(hdr, subs, {})
+                meta["demoted"] = True
             metas.append(meta)
             emit(ot, {"file": hdr["file"], "item": meta["name"], "kind": hdr["kind"], "canary": False})
             if canaries and meta["canary"]:
